@@ -200,7 +200,7 @@ def run(tier, seed):
     v.coverage["tables_regenerated"] = sy.get("changed", [])
     v.coverage["theorem_status"] = {
         "C05_checker_decides": "full", "C05_triples_bounded_3": "bounded(3 tokens, full alphabet)",
-        "C05_reduced_bounded_5": "bounded(5 tokens, reduced alphabet)", "C05_compile_agrees_bounded_3": "bounded(3)",
+        "C05_reduced_bounded_5": "bounded(5 tokens, reduced alphabet)", "C05_small_bounded_7": "bounded(7 tokens, small alphabet)", "C05_compile_agrees_bounded_3": "bounded(3)",
         "C05_compile_agrees_bounded_5": "bounded(5, reduced)", "C05_K1_refuted": "refuted-witness",
         "C05_K1_shared_refuted": "refuted-witness", "C05_K2_refuted": "refuted-witness",
         "C05_operands_meta_all_trees": "full (all trees, all initial states, no exclusion)",
